@@ -15,7 +15,7 @@ PROPERTY = {
     'technique': 'CrossHair symbolic execution of ComposedNode.__reduce__/__setstate__/_recreate, ConfigScalar.__reduce__ and the container mutators they use, through copy.deepcopy with symbolic merge-control flags (they stay symbolic inside the copied __dict__s) and through pickle with the flags concretised by exact selectors (pickle is a C boundary); node-wise comparison, disjointness of node identities, probe merges, and mutation isolation with a symbolic choice of mutation',
     'assumptions': ['metadata codec stub for flag sites (native replays use the real pickle codec)',
                     'for the pickle round trip flags are realised before pickling (C-level pickler), so there the solver certifies exhaustive case analysis over the flag values'],
-    'bounds': {'trees': 'the 9 two-site shapes and 14 node kinds of C18 (mappings, lists, scalars, null, empty containers, function nodes, xref/eval/fstr/import/path/required/clear/append/extend/prev), 2 symbolic flag sites, user metadata',
+    'bounds': {'trees': 'the 13 two-site shapes and 25 node kinds of C18 (mappings, lists, scalars, null, empty containers, function nodes, xref/eval/fstr/import/path/required/clear/append/extend/prev), 2 symbolic flag sites, user metadata',
                'mutations': '8 (metadata edit on a leaf / on a container, item set, append, delete, flag change, nested value edit, clear) applied to the copy or to the original (symbolic)',
                'aliases': '3 documents with YAML anchors/aliases (shared node under 2..3 entries, nested anchors), 2 mutations each',
                },
